@@ -7,7 +7,8 @@ ROOT=os.path.dirname(os.path.dirname(os.path.abspath(__file__)))
 RUNNER_SIGS=["sample-committed-before-series-record","delete-misses-ooo-head-samples","delete-hides-later-ooo-append",
  "wbl-sample-orphaned-by-checkpoint","head-delete-lost-after-compaction-and-restart","ooo-block-merged-raises-restart-bound",
  "stale-marker-conversion-reorders-commit"]
-USERS={"C02":"","C20":"hist-","C22":"","C23":"","C52":"","C53":""}
+USERS={"C02":"","C20":"hist-","C52":""}
+# C04 C06 C22 C23 C53 discard histories that fail the runner's own check; they list only the sigs they raise themselves.
 d=json.load(open(os.path.join(ROOT,'known_findings.json')))
 base={}
 for f in d['findings']:
